@@ -144,10 +144,16 @@ def notation_monitor(seed, out):
         relevant = sorted(nt.definition.metavars())
         if not relevant:
             continue
-        tuples = []
-        for _ in range(4):
-            args = [B.to_py(gen_ext(rng, k, rng.randint(0, 2), 0.3)) for _ in range(nt.arity)]
-            tuples.append(args)
+        # a base tuple plus, for every definition-relevant position, a variant that differs only there
+        base_args = [B.to_py(gen_ext(rng, k, rng.randint(0, 2), 0.3)) for _ in range(nt.arity)]
+        tuples = [base_args]
+        for i in relevant:
+            for _ in range(4):
+                alt = B.to_py(gen_ext(rng, k, rng.randint(0, 2), 0.3))
+                if alt.pretty(opts) != base_args[i].pretty(opts):
+                    tuples.append(base_args[:i] + [alt] + base_args[i + 1:])
+                    break
+        tuples.append([B.to_py(gen_ext(rng, k, rng.randint(0, 2), 0.3)) for _ in range(nt.arity)])
         rend = []
         for args in tuples:
             try:
